@@ -1404,7 +1404,7 @@ func init() {
 			NotDecided:  []string{"that the body decodes back to the value; JSONP framing bytes", "which status wins when a helper is called after the commit (C08)"},
 			Assumptions: []string{"goutil httpctype constants are the documented content types"},
 		},
-		Rules: []ruleFn{{"C19-STATUS", ruleC19Status}, {"C19-CTYPE", ruleC19CType}, {"C19-NOOVERRIDE", ruleC19NoOverride}, {"C19-ARMS", ruleC19Arms}, {"C19-ERR", ruleC19Err}},
+		Rules: []ruleFn{{"C19-STATUS", ruleC19Status}, {"C19-CTYPE", ruleC19CType}, {"C19-NOOVERRIDE", ruleC19NoOverride}, {"C19-ARMS", ruleC19Arms}, {"C19-ERR", ruleC19Err}, {"C03-POOL", ruleC03Pool}},
 	})
 	register(&property{
 		Meta: propertyMeta{
